@@ -219,3 +219,32 @@ def make_late(i, kw):
     if not late:
         late["method"] = True
     return late
+
+
+FAULTS = ["missing-der", "missing-pval", "DT-in-ode", "foreign-symbol-in-ode", "unknown-grid", "foreign-symbol-in-constraint", "foreign-symbol-in-objective",
+          "signal-objective", "vector-objective", "set_value-on-state", "set_initial-on-parameter", "set_initial-on-unknown", "constant-false",
+          "parameter-only-constraint", "roots-with-shooting", "der-of-control", "algebraic-with-explicit-scheme"]
+
+
+def make_fault(i, kw):
+    """one fault of the C20 catalogue, applicable to the i-th specification, at a generated position; returns (kw', fault)"""
+    r = random.Random("rockit-fault-%d" % i)
+    n_par = sum(len(kw["params"].get(k, [])) for k in ("", "control", "control+"))
+    ok = []
+    for f in FAULTS:
+        if f == "missing-pval" and not n_par: continue
+        if f == "set_initial-on-parameter" and not n_par: continue
+        if f == "parameter-only-constraint" and not kw["params"].get(""): continue
+        if f == "DT-in-ode" and kw.get("discrete"): continue
+        if f == "roots-with-shooting" and kw["method"] == "DC": continue
+        if f == "der-of-control" and not kw["controls"]: continue
+        if f == "algebraic-with-explicit-scheme" and (kw["method"] == "DC" or kw.get("discrete")): continue
+        ok.append(f)
+    f = ok[i % len(ok)] if i % 3 else r.choice(ok)
+    kw = dict(kw)
+    if f == "algebraic-with-explicit-scheme":
+        kw["algebraics"] = [1]
+        kw["ode"] = E("f", None, tuple(kw["ode"].deps) + ("z",))
+        kw["alg"] = E("g", None, ("z", "x"))
+        return kw, None
+    return kw, (f, r.randint(0, 5))
